@@ -156,6 +156,7 @@ public:
         ParseCfg c; c.api = (int)wr.below(4); c.scanner = (int)wr.below(10) < 6 ? (int)wr.below(2) * 2 : (int)wr.below(4); c.val = (int)wr.below(3); c.ns = true; c.positions = false;
         c.schema = w.schemaFlavour ? !wr.chance(1, 4) : wr.chance(1, 4); c.loadSchema = !wr.chance(1, 4); c.loadExternalDTD = !wr.chance(1, 3); c.disableDefaultEntityResolution = wr.chance(1, 4); c.standardUri = false; c.entityRefNodes = wr.chance(1, 4);
         if (c.scanner == 3) c.schema = true;
+        if (wr.chance(1, 6)) { c.disallowDoctype = true; c.exitOnFirstFatal = wr.coin(); }      // DOCTYPE not allowed at all: whether or not the parse goes on behind the fatal error, nothing the DTD names may be fetched
         plan.set("cfg", c.toJson());
         bool http = !w.net.empty(); static const char* fk[] = { "file", "custom", "membuf" }; plan.set("source", http ? (wr.chance(1, 2) ? "url" : "custom") : fk[wr.below(3)]);
         int resolver = (int)wr.below(3); plan.set("resolver", resolver);
@@ -228,7 +229,8 @@ private:
         if (!documentedException(pr.exception)) { o.violated = true; o.cls = "foreign-exception:" + pr.exception; return; }
 
         // ---- permit model
-        bool dtdScanner = cfg.scanner == 0 || cfg.scanner == 2;              // IG / DG process the DOCTYPE
+        bool dtdScanner = (cfg.scanner == 0 || cfg.scanner == 2) && !cfg.disallowDoctype;              // IG / DG process the DOCTYPE - unless the configuration does not allow one
+        if (cfg.disallowDoctype) g_run.probe("cfg_disallow_doctype");
         bool validating = cfg.val == 1 || cfg.val == 2;                        // auto + DOCTYPE present = validating
         bool extSubsetMay = dtdScanner && (cfg.loadExternalDTD || validating);
         bool schemaMay = cfg.schema && cfg.loadSchema && cfg.scanner != 1 && cfg.scanner != 2;   // WF / DG never do schema
